@@ -97,6 +97,16 @@ CHECKS = {
             "2e5 (quick) / 2e6 (thorough) samples per setting are drawn through sample_uniform and every scalar statistic is compared with its exact law; a deviation above the DKW epsilon (7.3e-3 / 2.3e-3) is a violation with false-alarm probability below 1e-6 per run. Biases below epsilon are invisible.",
             "Trusted: ChaCha8 as the source of randomness; exact marginal laws derived in DESIGN.md.",
             "DESIGN.md section 5 C14"),
+    "C19": (True, "exploration",
+            "differential runtime check across the language boundary: the same seeded scenarios executed through oxmpl_py (Python callbacks with bit-identical arithmetic) and through the core, compared bit for bit",
+            "240 / 2400 scenarios (6 problem-definition variants x 4 planners x generated worlds / parameters / seeds) are run through the freshly built extension module; RRT / RRT-Connect / RRT* paths must equal the core's bit for bit and errors by kind, PRM paths must be sound under the same primitives; 2261 wrapper probes over the C12 lattice compare ValueError-vs-Err, distances, extents and canonicalised angles bitwise.",
+            "Trusted: CPython floats are IEEE doubles; a wall-clock time-out on the Python side makes that case inconclusive. The extension is rebuilt from /repo's working tree (cargo build -p oxmpl-py, debug profile).",
+            "DESIGN.md section 5 C19"),
+    "C20": (True, "fault_enumeration",
+            "fault injection in Python callbacks (raise / None / str / int / list, on a fault region or at the k-th call for k < 10) with a differential oracle against the callback that returns False in the same situations and against the core on world + region",
+            "192 / 960 groups of runs per tier on seeded scenarios over all six Python problem variants and four planners; a failing callback must give the identical path / error as one returning False and never a path through the fault region. Only the Python binding is executed: the JavaScript binding (oxmpl-js) cannot run in this image (no wasm32 target, no wasm-bindgen) - that half of the property is not covered.",
+            "Trusted: determinism of the seeded planners (C07); PRM (wall-clock build) and timed-out runs are only checked for 'no state in the fault region'.",
+            "DESIGN.md section 5 C20"),
 }
 
 NOT_YET = {
